@@ -1781,6 +1781,44 @@ impl<'a> VisitMut for Rules<'a> {
             }
         }
         if self.ctx.on("R59") {
+            // R59b: `M.iter().filter_map(|(k, v)| BODY).collect::<Vec<T>>()` over a listed map -> position loop over its entries in order that
+            // pushes the payload of every `Some` BODY yields (std definitions of filter_map / collect)
+            if let syn::Expr::MethodCall(col) = e {
+                let tf = col.turbofish.as_ref().map(|t| norm(&t.args.to_token_stream().to_string())).unwrap_or_default();
+                if col.method == "collect" && col.args.is_empty() && tf.starts_with("Vec<") {
+                    if let syn::Expr::MethodCall(fm) = &*col.receiver {
+                        if fm.method == "filter_map" && fm.args.len() == 1 {
+                            if let (syn::Expr::Closure(cl), syn::Expr::MethodCall(it)) = (&fm.args[0], &*fm.receiver) {
+                                if it.method == "iter" && it.args.is_empty() && is_r13_map(self.ctx, &it.receiver) && cl.inputs.len() == 1 {
+                                    let pat = match &cl.inputs[0] { syn::Pat::Type(pt) => (*pt.pat).clone(), p => p.clone() };
+                                    let m = (*it.receiver).clone();
+                                    let body = (*cl.body).clone();
+                                    let vty: syn::Type = syn::parse_str(&tf).unwrap_or_else(|_| syn::parse_quote!(Vec<_>));
+                                    let k = self.ctx.fresh();
+                                    let nn = syn::Ident::new(&format!("vx_n{}", k), proc_macro2::Span::call_site());
+                                    let ii = syn::Ident::new(&format!("vx_i{}", k), proc_macro2::Span::call_site());
+                                    let oo = syn::Ident::new(&format!("vx_fm{}", k), proc_macro2::Span::call_site());
+                                    let decl: syn::Stmt = if tf == "Vec<_>" { syn::parse_quote!(let mut #oo = Vec::new();) } else { syn::parse_quote!(let mut #oo: #vty = Vec::new();) };
+                                    *e = syn::parse_quote!({
+                                        #decl
+                                        let #nn = #m.len();
+                                        for #ii in 0..#nn {
+                                            let #pat = #m.get_index(#ii).unwrap();
+                                            match #body { Some(vx_fm_v) => { #oo.push(vx_fm_v); } None => {} }
+                                        }
+                                        #oo
+                                    });
+                                    self.ctx.used("R59");
+                                    syn::visit_mut::visit_expr_mut(self, e);
+                                    return;
+                                }
+                            }
+                        }
+                    }
+                }
+            }
+        }
+        if self.ctx.on("R59") {
             // R59: `A.iter().enumerate().filter_map(|(i, v)| BODY).collect::<Vec<T>>()` -> index loop that pushes the payload of every `Some` BODY
             // yields, in order (std definitions of enumerate / filter_map / collect)
             if let syn::Expr::MethodCall(col) = e {
